@@ -4,7 +4,7 @@ from __future__ import annotations
 
 from .. import gen, probe, smallworld, spec
 from ..probe import violation
-from .common import call, use_as_input_of_derivations
+from .common import call, growth_sweep, use_as_input_of_derivations
 
 PROP = "C03"
 LEVEL = "exploration"
@@ -74,6 +74,8 @@ def small_world_relations(c, recs, d, q):
 
 
 def run_case(ctx, g, rng):
+    d_ = rng.choice([":", ":", "/"])
+    growth_sweep(ctx, rng, d_, g, relate=lambda c_, q: small_world_relations(c_, spec.snapshot(c_), d_, q))
     if smallworld.active(ctx, g):
         for c_, recs_, d_ in smallworld.chunk(ctx, g):
             for q in smallworld.queries(ctx.tier, d_):
